@@ -278,7 +278,10 @@ def special_words():
 
 KW_TEMPLATES = ["{W}::{V}\n", "K::[{W}::{V}]\n", "K::[a,{W}::{V},b]\n", "{W}:\n  X::{V}\n", "K::{W}[{V}]\n", "K::[{W}[{V}]∧REQ]\n",
                 "K::{W}<{V}>\n", "§1::{W}\n  X::{V}\n", "==={W}===\nX::{V}\n===END===\n", "===D===\nMETA:\n  {W}::{V}\n---\nA::1\n===END===\n",
-                "K::{W} {V}\n", "K::[{V}∧{W}]\n", "K::[{V}→§{W}]\n"]
+                "K::{W} {V}\n", "K::[{V}∧{W}]\n", "K::[{V}→§{W}]\n",
+                # unreadable documents whose META lines carry several '::' (the salvage / localisation paths re-read META textually)
+                "===D===\nMETA:\n  {W}::{V}\n  NOTE::A::B\n---\nBAD::a^b\n===END===\n", "META:\n  {W}::[k::v,j::{V}]\n  X::\"::\"\nK::[unclosed\n",
+                "===D===\nMETA:\n  TYPE::X\n  {W}::{V}::{V}\n---\nK:\n\tT::1\n===END===\n"]
 KW_VALUES = ["a", '"q s"', "1", "[fix,later]", '["^a"∧REQ→§SELF]', "[k::v]", "true", "null", "", "\n```\nz\n```", "a->b", "$V"]
 KW_TOOL_WORDS = ["PATTERN", "REGEX", "ENUM", "TYPE", "NEVER", "META", "DELETE", "CONTRACT", "GRAMMAR", "END", "NULL", "TRUE"]
 
